@@ -16,12 +16,18 @@ BOUND_MS = 6000
 
 
 def cmd(r, k, dur):
-    return 'echo "start.%d.%d $(date +%%s%%N)" >> "$TRACE"; sleep %s; echo "end.%d.%d $(date +%%s%%N)" >> "$TRACE"' % (r, k, dur, r, k)
+    body = "sleep %s" % dur
+    if str(dur).startswith("noint"):          # a child that ignores SIGINT: ends only by SIGKILL after the interpreter's 2 s grace
+        body = "sh -c \"trap '' INT; while :; do :; done\""       # (no grandchild: one that kept the output pipe open would delay the return, which is outside the statement)
+    return 'echo "start.%d.%d $(date +%%s%%N)" >> "$TRACE"; %s; echo "end.%d.%d $(date +%%s%%N)" >> "$TRACE"' % (r, k, body, r, k)
 
 
-def task(r, durs, before=None):
-    return {"name": "t%d" % r, "commands": [cmd(r, k + (1 if before else 0), d) for k, d in enumerate(durs)],
-            "before": [cmd(r, 0, before)] if before else [], "ncmds": len(durs) + (1 if before else 0)}
+def task(r, durs, before=None, timeout_ms=0):
+    t = {"name": "t%d" % r, "commands": [cmd(r, k + (1 if before else 0), d) for k, d in enumerate(durs)],
+         "before": [cmd(r, 0, before)] if before else [], "ncmds": len(durs) + (1 if before else 0)}
+    if timeout_ms:
+        t["timeout_ms"] = timeout_ms
+    return t
 
 
 def gen_cases(ctx):
@@ -42,6 +48,16 @@ def gen_cases(ctx):
             tasks = [task(r, ["30", "30"]) for r in range(k)]
             plan = [{"op": "cancel", "after_ms": 400}] + ([{"op": "cancel", "after_ms": 420}] if twice else []) + [{"op": "par", "tasks": list(range(k))}]
             add("in-flight-%d%s" % (k, "-twice" if twice else ""), tasks, plan)
+    # two (three) Cancel calls ALL waiting at the moment the last run ends: the commands ignore SIGINT, so the runs end ~2 s after the first Cancel
+    for k in (1, 2):
+        for nc in (2, 3):
+            add("cancels-all-waiting-%d-%d" % (k, nc), [task(r, ["noint30", "30"]) for r in range(k)],
+                [{"op": "cancel", "after_ms": 300 + 60 * j} for j in range(nc)] + [{"op": "par", "tasks": list(range(k))}])
+    # tasks that declare a timeout (far away): Cancel must interrupt them all the same
+    for k in (1, 3):
+        add("in-flight-with-timeout-%d" % k, [task(r, ["30", "30"], timeout_ms=25000) for r in range(k)],
+            [{"op": "cancel", "after_ms": 400}, {"op": "par", "tasks": list(range(k))}])
+    add("before-hook-with-timeout", [task(0, ["0.1"], before="30", timeout_ms=25000)], [{"op": "cancel", "after_ms": 300}, {"op": "run", "tasks": [0]}])
     # during a before hook
     add("during-before-hook", [task(0, ["0.1", "0.1"], before="30")], [{"op": "cancel", "after_ms": 300}, {"op": "run", "tasks": [0]}])
     # between commands: short commands, Cancel at varying offsets
